@@ -143,7 +143,8 @@ R_DUR_SUB = make_seq_rule("R-duration-op", "interval - jitter", "interval.verif_
 R_DUR_ADD = make_seq_rule("R-duration-op", "interval + jitter", "interval.verif_add(jitter)")
 R_ARC_CLONE_H = make_seq_rule("R-arc", "handle.clone()", "verif_arc_clone(&handle)", not_after=(".",))
 BG_RULES = (R_DUR_SUB, R_DUR_ADD, R_ARC_CLONE_H, make_mut_param_rule("shutdown"))
-OPEN_RULES = (R_REF_PAT, R_F64_CMP, R_ARC_NEW, R_ARC_CLONE_CTX, R_ARC_CLONE_HANDLE, R_POOL_NEW1, R_THREAD)
+R_F64_CMP2 = make_seq_rule("R-f64-cmp", "entry.fragmentation() > self.conf.merge.thresholds.fragmentation", "verif_f64_gt(entry.fragmentation(), self.conf.merge.thresholds.fragmentation)")
+OPEN_RULES = (R_REF_PAT, R_F64_CMP, R_F64_CMP2, R_ARC_NEW, R_ARC_CLONE_CTX, R_ARC_CLONE_HANDLE, R_POOL_NEW1, R_THREAD)
 R_INTERIOR_KVSET = make_seq_rule("R-interior", "fn set(&self", "fn set(&mut self")
 R_INTERIOR_KVDEL = make_seq_rule("R-interior", "fn del(&self", "fn del(&mut self")
 # the supertraits / bounds of the trait are about threads and error reporting, not about what the methods compute
